@@ -14,22 +14,18 @@ INF = np.inf
 # inf-safe comparison helpers
 # =====================================================================================
 def close(a, b, rel=1e-9, abs_=0.0):
-    """Three-valued-safe closeness for scalars/arrays: non-finite values must match exactly."""
+    """Closeness for scalars/arrays with explicit non-finite handling: NaN is never close to anything, infinities must
+    match exactly (sign included), finite entries within abs_ + rel * (1 + |b|)."""
     a = np.asarray(a, dtype=float)
     b = np.asarray(b, dtype=float)
     if a.shape != b.shape:
         return False
-    fa, fb = np.isfinite(a), np.isfinite(b)
-    if not np.array_equal(fa, fb):
-        return False
-    if not np.array_equal(a[~fa], b[~fb]) and not (np.isnan(a[~fa]).any() or np.isnan(b[~fb]).any()):
-        return False
     if np.isnan(a).any() or np.isnan(b).any():
         return False
-    if not np.array_equal(a[~fa], b[~fb]):
+    fa, fb = np.isfinite(a), np.isfinite(b)
+    if not np.array_equal(fa, fb) or not np.array_equal(a[~fa], b[~fb]):
         return False
-    d = np.abs(a[fa] - b[fb])
-    return bool(np.all(d <= abs_ + rel * (1.0 + np.abs(b[fb]))))
+    return bool(np.all(np.abs(a[fa] - b[fb]) <= abs_ + rel * (1.0 + np.abs(b[fb]))))
 
 
 def maxdiff(a, b):
